@@ -209,6 +209,35 @@ def run_attr(c):
             a *= 2.0
             a += 1.0
             expJ = v if "pol" in form else None
+        elif form in ("imul_pol", "imul_mag", "iadd_pol", "iadd_mag", "edit_then_assign_pol", "edit_then_assign_mag"):
+            # augmented assignment / editing the array a getter returned and assigning it back: the setter sees a value that may
+            # already be the stored one - both attributes must follow
+            o = C(polarization=v, **par)
+            a = "polarization" if form.endswith("pol") else "magnetization"
+            old = np.array(getattr(o, a), float)
+            if form.startswith("imul"):
+                if a == "polarization":
+                    o.polarization *= 2.0
+                else:
+                    o.magnetization *= 2.0
+                new = old * 2.0
+            elif form.startswith("iadd"):
+                step = np.array((0.1, -0.2, 0.3)) * (1.0 if a == "polarization" else 1.0 / mu0)
+                if a == "polarization":
+                    o.polarization += step
+                else:
+                    o.magnetization += step
+                new = old + step
+            else:
+                arr = getattr(o, a)
+                arr[2] = arr[2] * 3.0 + (0.25 if a == "polarization" else 0.25 / mu0)
+                setattr(o, a, arr)
+                new = old.copy()
+                new[2] = old[2] * 3.0 + (0.25 if a == "polarization" else 0.25 / mu0)
+            expJ = new if a == "polarization" else None
+            got_a = np.array(getattr(o, a), float)
+            if not np.allclose(got_a, new, rtol=1e-14, atol=0):
+                return [("in-place-edit-lost", f"{form}: {a} reads {got_a.tolist()} expected {new.tolist()}")]
         elif form == "M_J_M":
             o = C(magnetization=(1e5, 2e5, 3e5), **par)
             o.polarization = (0.5, 0.5, 0.5)
@@ -238,7 +267,8 @@ def run_attr(c):
 
 
 # ------------------------------------------------------------------ several bodies in one call
-BATCH_KINDS = ["meshA", "meshB", "meshA2", "cub", "ring", "tet", "meshT"]
+BATCH_KINDS = ["meshA", "meshB", "meshA2", "cub", "ring", "tet", "meshT", "tetS"]
+IN_OUT_KINDS = ("meshA", "meshB", "meshA2", "meshT", "tet", "tetS")   # classes whose field function takes the in_out argument
 
 
 def mk_batch_body(kind, slot):
@@ -265,8 +295,10 @@ def mk_batch_body(kind, slot):
         o = magpy.magnet.CylinderSegment(dimension=(0.4, 1.0, 0.6, 0, 360), polarization=pol, position=pos, orientation=ori)
     elif kind == "tet":
         o = magpy.magnet.Tetrahedron(vertices=TV, polarization=pol, position=pos, orientation=ori)
+    elif kind == "tetS":    # a tetrahedron 1e-4 times the size of the other bodies of the call
+        o = magpy.magnet.Tetrahedron(vertices=np.array(TV) * 1e-4, polarization=pol, position=pos, orientation=ori)
     # meshB's point lies inside meshB but outside the shape of meshA / cub (so a mask taken from the wrong body shows)
-    inside_local = {"ring": (0.7, 0.1, 0.05), "tet": (0.05, 0.02, 0.0), "meshT": (0.05, 0.02, 0.0),
+    inside_local = {"ring": (0.7, 0.1, 0.05), "tet": (0.05, 0.02, 0.0), "meshT": (0.05, 0.02, 0.0), "tetS": (0.05e-4, 0.02e-4, 0.0),
                     "meshB": (0.7, -0.07, 0.05)}.get(kind, (0.11, -0.07, 0.05))
     return o, np.array(inside_local), np.array(pol)
 
@@ -290,7 +322,10 @@ def run_batch(c):
     B, H, J, M = out["B"], out["H"], out["J"], out["M"]
     res = np.linalg.norm(B - mu0 * H - J, axis=-1)
     sc = np.maximum.reduce([np.linalg.norm(B, axis=-1), mu0 * np.linalg.norm(H, axis=-1), np.linalg.norm(J, axis=-1)])
-    for l, k in np.argwhere(res > REL * np.maximum(sc, 1e-300))[:3]:
+    # relative to the largest field of the source in this call (bodies of very different size share the call: the far field of
+    # the small one is cancellation noise at the 1e-12 level, which is C01's subject; a wrong mask shows at O(1))
+    sc_src = np.max(sc, axis=1, keepdims=True)
+    for l, k in np.argwhere(res > REL * np.maximum(sc_src, 1e-300))[:3]:
         problems.append(("batch-B-mu0H-J", f"source {l} observer {k}: |B-mu0H-J|={res[l, k]:.3g}", None))
     if np.max(np.abs(J - mu0 * M)) > 1e-15 * np.max(np.abs(J) + 1e-300):
         problems.append(("batch-J-mu0M", "J != mu_0*M", None))
@@ -318,6 +353,32 @@ def run_batch(c):
             want = bodies[k][0].orientation.apply(bodies[k][2]) if k < len(bodies) else np.zeros(3)
             if np.linalg.norm(J[0, k] - want) > 1e-14:
                 problems.append(("batch-J-wrong-body", f"collection, observer {k}: J={J[0, k].tolist()} expected {want.tolist()}", None))
+    # in_out given by the caller: sources that take the argument report J = polarization ('inside') or 0 ('outside') at EVERY observer,
+    # the others are evaluated as always - whatever the order and the company of the call
+    for io in ("inside", "outside"):
+        try:
+            Jio = np.asarray(magpy.getJ(srcs_arg, obs, in_out=io, squeeze=False))[:, 0, 0]
+            Bio = np.asarray(magpy.getB(srcs_arg, obs, in_out=io, squeeze=False))[:, 0, 0]
+            Hio = np.asarray(magpy.getH(srcs_arg, obs, in_out=io, squeeze=False))[:, 0, 0]
+        except Exception as e:
+            problems.append(("raised", f"in_out={io} raised {type(e).__name__}: {e}"[:160], None))
+            continue
+        want = np.zeros((len(bodies), len(obs), 3))
+        for l, (o, _, pol) in enumerate(bodies):
+            for k in range(len(obs)):
+                if kinds[l] in IN_OUT_KINDS:
+                    want[l, k] = o.orientation.apply(pol) if io == "inside" else 0.0
+                else:
+                    want[l, k] = o.orientation.apply(pol) if k == l else 0.0
+        if c.get("collection"):
+            want = want.sum(axis=0, keepdims=True)
+        if np.max(np.linalg.norm(Jio - want, axis=-1)) > 1e-14:
+            l, k = np.unravel_index(np.argmax(np.linalg.norm(Jio - want, axis=-1)), Jio.shape[:2])
+            problems.append((f"batch-J-wrong-with-in_out={io}", f"entry {l} ({'collection' if c.get('collection') else kinds[l]}) observer {k}: J={Jio[l, k].tolist()} expected {want[l, k].tolist()}", None))
+        r_ = np.linalg.norm(Bio - mu0 * Hio - Jio, axis=-1)
+        s_ = np.maximum(np.max(np.linalg.norm(Bio, axis=-1), axis=1, keepdims=True), 1e-300)
+        if np.max(r_ / s_) > 1e-9:
+            problems.append((f"batch-B-mu0H-J-with-in_out={io}", f"rel {np.max(r_ / s_):.3g}", None))
     return {"rows": 4 * len(obs) * len(srcs), "problems": problems[:4], "n_inside": len(bodies), "n_surface": 0}
 
 
@@ -424,7 +485,8 @@ def enumerate_cases(tier):
                         cases.append({"part": "field", "cls": cls, "regime": ri, "pol": pi, "pose": po, "in_out": io})
     for cls in MAGNETS + ["Triangle"]:
         for form in ("ctor_pol", "ctor_mag", "set_pol", "set_mag", "J_M_J", "M_J_M", "set_mag_warning_as_error", "set_pol_warning_as_error",
-                     "ctor_pol_mutate_input", "set_pol_mutate_input", "ctor_mag_mutate_input", "set_mag_mutate_input"):
+                     "ctor_pol_mutate_input", "set_pol_mutate_input", "ctor_mag_mutate_input", "set_mag_mutate_input",
+                     "imul_pol", "imul_mag", "iadd_pol", "iadd_mag", "edit_then_assign_pol", "edit_then_assign_mag"):
             for val in ((0.2, -0.3, 0.9), (0, 0, 0), (1e-12, 0, 2e-12), (1e12, -3e12, 2e12), (0, 0, 1.0)):
                 cases.append({"part": "attr", "cls": cls, "form": form, "value": list(val)})
     for form in CUSTOM_FORMS:
